@@ -115,7 +115,7 @@ def judge_table(case, part):
     for data_format in FORMATS:
         rows, decls = cid_rows_for(fields, data_format, sheet)
         config = {"preset": data_format, "header": 0, "fields": fields, "sheet": sheet if data_format != "delimited" else 1,
-                  "odf": {"span_range": [1, 6], "span_nested": bool(sheet % 2)}}  # ODS data: part of every longer cell inside inline elements
+                  "odf": {"span_range": [1, 6], "span_nested": bool(sheet % 2), "col_runs": True}}  # ODS data: part of every longer cell inside inline elements, runs of equal cells stored once
         for storage in STORAGES:
             outcome, cid = load(store_rows(rows, storage, "tcid"))
             part.transitions += 2
@@ -161,6 +161,13 @@ def tables_for(fields, count):
         base_rows.append([accepted[i][variant % len(accepted[i])] for i in range(len(fields))])
     tables.append(([list(r) for r in base_rows], False))
     tables.append(([list(base_rows[0]), list(base_rows[0])], True))  # duplicate key
+    if len(fields) >= 3:
+        # rows ending in two or three empty cells (an office suite stores such a run as one repeated cell); another row keeps the sheet width
+        for trailing in (2, 3):
+            if trailing < len(fields):
+                table = [list(base_rows[0]), list(base_rows[1]), list(base_rows[2])]
+                table[1][-trailing:] = [""] * trailing
+                tables.append((table, True))
     for column in range(len(fields)):
         for bad in rejected[column]:
             table = [list(base_rows[0]), list(base_rows[1])]
@@ -194,4 +201,4 @@ def run(ctx):
     ctx.bound = {"CIDs": len(cases) - table_count, "tables": table_count, "combinations per table": "3 data formats x 3 CID storages = 9", "sheets": "data on sheet 1 or 2 with the matching Sheet property"}
     ctx.rule = ("differential oracle, no expected values: (a) the definition snapshot of a CID loaded from csv, ods (two encodings) and xlsx must be equal; (b) the event list (accept + values / reject + error class, row, "
                 "column) of a table must be equal across all 9 (data format, CID storage) combinations; non-trivial = every CID case and every table containing a rejected cell")
-    ctx.assumptions = ["tables keep their last column non-empty and contain no empty or ragged rows, because an xlsx sheet does not store empty strings (covered by C04)"]
+    ctx.assumptions = ["every table has a row whose last cell is non-empty and contains no empty or ragged rows, because an xlsx sheet does not store empty strings (covered by C04)"]
